@@ -262,6 +262,9 @@ DlinkConfigs == {[C0 EXCEPT !.fam = "dlink", !.cls = cl[1], !.le = cl[2], !.ver 
                             !.home = hd[1], !.dl = hd[2], !.loader = lo, !.follow = fo] :
                    cl \in ClsLeLinks, eh \in BOOLEAN, pl \in {"plain", "gabi", "z"},
                    hd \in {<<"linked", "ok">>, <<"linked", "badcrc">>, <<"main", "ok">>, <<"main", "badcrc">>}, lo \in BOOLEAN, fo \in BOOLEAN}
+                \* the plain, link-free encoding of the same payloads (the reference of the family)
+                \cup {[C0 EXCEPT !.fam = "dlink", !.cls = cl[1], !.le = cl[2], !.ver = VerOf(cl, "none"), !.fmt = FmtOf(cl), !.eh = eh] :
+                        cl \in ClsLeLinks, eh \in BOOLEAN}
 SupConfigs == {[C0 EXCEPT !.fam = "sup", !.cls = cl[1], !.le = cl[2], !.ver = VerOf(cl, su), !.fmt = FmtOf(cl), !.plan = pl, !.sup = su, !.supplan = sp,
                           !.loader = lo, !.follow = fo] :
                  cl \in ClsLeLinks, su \in {"altlink", "debug_sup"}, pl \in {"plain", "gabi", "z"}, sp \in {"plain", "gabi", "z"}, lo \in BOOLEAN, fo \in BOOLEAN}
@@ -430,7 +433,7 @@ Bit(b) == IF b THEN 1 ELSE 0
 ImgKey(c) == <<c.cls, Bit(c.le), c.ver, c.fmt, Bit(c.line), Bit(c.eh), c.plan, c.dl, c.home, c.sup, c.supplan>>
 RefKey(c, suploaded) == <<c.cls, Bit(c.le), c.ver, c.fmt, Bit(c.line), Bit(c.eh), c.sup, Bit(suploaded)>>
 IsRef(c) == c.plan = "plain" /\ c.dl = "none" /\ c.supplan = "plain" /\ c.home = "main"
-CanonForImages(c) == c.follow /\ (c.loader = (c.fam \notin {"enc", "nodwarf"}))
+CanonForImages(c) == c.follow /\ (c.loader = (c.fam \notin {"enc", "nodwarf"} /\ ~(c.fam = "dlink" /\ c.dl = "none")))
 ImgLine(role) ==
   LET im == ImageOf(files[role], cfg)
       lk == SecIx(files[role], DotGnuDebuglink)
